@@ -18,7 +18,7 @@ use crate::proto::{Ctx, attrs};
 pub fn meta() -> Meta {
     Meta {
         level: "fault_enumeration",
-        rule: "for each kind (bdd, bcdd, zbdd; mtbdd with the terminal store as swept resource) and each scripted operation on 4-variable operands (var creation / operand construction, and, xor, ite, not, exists, apply_exists, substitute, restrict, pick_cube_dd, pick_cube_dd_set, zbdd union/change/subset1/not/ite, mtbdd add/mul, DDDMP import in ASCII and binary mode, set_var_order, zbdd add_vars): a fresh manager for EVERY inner-node capacity c = 0 .. B+m+2 (B = nodes of ballast + operands, m = nodes the operation allocates on an ample manager), 1 worker and (for and/ite/exists) 2 workers with split depth 2. Outcome must be Ok with the model's result or Err(OutOfMemory); after Err: full audit incl. exact reference counts with the harness's live handles, all earlier handles keep their tables, gc leaves exactly the reachable nodes; then the ballast is dropped, gc, and the same operation must succeed with the model's result. Panic, abort and hang are violations. Non-trivial: runs in which the operation itself (not the operand construction) failed.",
+        rule: "for each kind (bdd, bcdd, zbdd; mtbdd with the terminal store as swept resource) and each scripted operation on 4-variable operands (5 fixed operand sets, thorough: 32; var creation / operand construction, and, xor, ite, not, exists, apply_exists, substitute, restrict, pick_cube_dd, pick_cube_dd_set, zbdd union/change/subset1/not/ite, mtbdd add/mul, DDDMP import in ASCII and binary mode, set_var_order, zbdd add_vars): a fresh manager for EVERY inner-node capacity c = 0 .. B+m+2 (B = nodes of ballast + operands, m = nodes the operation allocates on an ample manager), 1 worker and (for and/ite/exists) 2 workers with split depth 2. Outcome must be Ok with the model's result or Err(OutOfMemory); after Err: full audit incl. exact reference counts with the harness's live handles, all earlier handles keep their tables, gc leaves exactly the reachable nodes; then the ballast is dropped, gc, and the same operation must succeed with the model's result. Panic, abort and hang are violations. Non-trivial: runs in which the operation itself (not the operand construction) failed.",
         assumptions: vec![
             "capacities below 100 nodes disable the background collector, so which allocation fails is determined by c alone (single-threaded runs)".into(),
             "index backend only: the pointer backend has no capacity limit".into(),
@@ -86,7 +86,18 @@ fn operand_tabs() -> [Tab; 3] {
         1 => [(x(0) | (x(1) & x(2))) & m, ((x(0) & (x(2) ^ x(3))) | (!x(0) & x(1))) & m, (x(1) | x(3)) & m],
         2 => [(x(0) ^ x(1) ^ x(2)) & m, (x(1) & x(3)) & m, (x(0) | x(2)) & m],
         3 => [((x(0) & x(1)) | (x(2) & x(3))) & m, ((x(0) ^ x(2)) | (x(1) & !x(3))) & m, 0x6996],
-        _ => [((x(0) & x(1) & x(2)) | (!x(0) & x(3))) & m, (x(0) | (x(2) & x(3))) & m, ((x(1) ^ x(3)) & x(2)) & m],
+        4 => [((x(0) & x(1) & x(2)) | (!x(0) & x(3))) & m, (x(0) | (x(2) & x(3))) & m, ((x(1) ^ x(3)) & x(2)) & m],
+        // thorough tier: 27 further fixed sets (a fixed mixing function of the set number; constants avoided)
+        s => {
+            let mix = |i: u64| {
+                let mut z = (s as u64 * 3 + i).wrapping_mul(0x9e37_79b9_7f4a_7c15).wrapping_add(0x1234_5678_9abc_def1);
+                z = (z ^ (z >> 30)).wrapping_mul(0xbf58_476d_1ce4_e5b9);
+                z = (z ^ (z >> 27)).wrapping_mul(0x94d0_49bb_1331_11eb);
+                let t = (z ^ (z >> 31)) & m;
+                if t == 0 || t == m { 0x6996 ^ (i + 1) } else { t }
+            };
+            [mix(0), mix(1), mix(2)]
+        }
     }
 }
 
@@ -356,7 +367,7 @@ fn run_at<K: K14>(ctx: &mut Ctx, op: &str, c: usize, threads: u32, b0: &mut Opti
 }
 
 fn sweep<K: K14>(ctx: &mut Ctx, op: &str, threads: u32) {
-    for set in 0..NSETS {
+    for set in 0..if ctx.thorough() { NSETS + 27 } else { NSETS } {
         OPSET.with(|c| c.set(set));
         sweep_set::<K>(ctx, op, threads);
     }
